@@ -9,7 +9,7 @@ from .. import resources
 
 
 # Procedure names that start with a procedure keyword.
-PROCEDURE_START_PREFIX = re.compile(r"(?i)procedure\s+(\w+)\s*$")
+PROCEDURE_START_PREFIX = re.compile(r"(?i)procedure\s+([\w-]+)\s*$")
 
 # Procedures that have been called.
 INVOKED_PROCEDURE_NAMES = re.compile(r'(?i)\s*RUN\s+(\w+)(?=[^"]*(?:"[^"]*"[^"]*)*$)')
